@@ -231,7 +231,7 @@ func checkDelegation(o *Obligation, f *ssa.Function) {
 			n++
 			call = x
 		case *ssa.Return:
-			if call == nil || len(x.Results) != 1 || x.Results[0] != ssa.Value(call) {
+			if call == nil || len(x.Results) != 1 || !sameOrigin(x.Results[0], ssa.Value(call)) {
 				o.Fail(in.Pos(), "XorBytes does not return the delegate's result unchanged")
 			}
 		case *ssa.DebugRef:
@@ -244,11 +244,11 @@ func checkDelegation(o *Obligation, f *ssa.Function) {
 		return
 	}
 	a := call.Call.Args
-	if len(a) != 3 || a[0] != ssa.Value(f.Params[0]) {
+	if len(a) != 3 || !sameOrigin(a[0], ssa.Value(f.Params[0])) {
 		o.Fail(call.Pos(), "the destination is not passed first")
 		return
 	}
-	if !((a[1] == ssa.Value(f.Params[1]) && a[2] == ssa.Value(f.Params[2])) || (a[1] == ssa.Value(f.Params[2]) && a[2] == ssa.Value(f.Params[1]))) {
+	if !((sameOrigin(a[1], ssa.Value(f.Params[1])) && sameOrigin(a[2], ssa.Value(f.Params[2]))) || (sameOrigin(a[1], ssa.Value(f.Params[2])) && sameOrigin(a[2], ssa.Value(f.Params[1])))) {
 		o.Fail(call.Pos(), "the two operands are not exactly (a, b)")
 	}
 }
@@ -287,17 +287,17 @@ func legacyXorRules(o *Obligation, f *ssa.Function, fset *token.FileSet) {
 		if !ok || len(ph.Edges) != 2 {
 			return
 		}
-		la := isLenOf(ph.Edges[0], func(v ssa.Value) bool { return v == ssa.Value(a) }) || isLenOf(ph.Edges[1], func(v ssa.Value) bool { return v == ssa.Value(a) })
-		lb := isLenOf(ph.Edges[0], func(v ssa.Value) bool { return v == ssa.Value(b) }) || isLenOf(ph.Edges[1], func(v ssa.Value) bool { return v == ssa.Value(b) })
+		la := isLenOf(ph.Edges[0], func(v ssa.Value) bool { return sameOrigin(v, ssa.Value(a)) }) || isLenOf(ph.Edges[1], func(v ssa.Value) bool { return sameOrigin(v, ssa.Value(a)) })
+		lb := isLenOf(ph.Edges[0], func(v ssa.Value) bool { return sameOrigin(v, ssa.Value(b)) }) || isLenOf(ph.Edges[1], func(v ssa.Value) bool { return sameOrigin(v, ssa.Value(b)) })
 		if la && lb {
 			nVal = ph
 			// the edge carrying len(b) must be guarded by len(b) < len(a) (or <=)
 			for i, e := range ph.Edges {
-				if isLenOf(e, func(v ssa.Value) bool { return v == ssa.Value(b) }) {
+				if isLenOf(e, func(v ssa.Value) bool { return sameOrigin(v, ssa.Value(b)) }) {
 					okG := false
 					for _, ft := range append(guardsOfBlock(ph.Block().Preds[i]), lastBranchFact(ph.Block().Preds[i], ph.Block())...) {
 						cm, ok := normCmp(ft.Cond, ft.Val)
-						if ok && (cm.Op == token.LSS || cm.Op == token.LEQ) && isLenOf(cm.X, func(v ssa.Value) bool { return v == ssa.Value(b) }) && isLenOf(cm.Y, func(v ssa.Value) bool { return v == ssa.Value(a) }) {
+						if ok && (cm.Op == token.LSS || cm.Op == token.LEQ) && isLenOf(cm.X, func(v ssa.Value) bool { return sameOrigin(v, ssa.Value(b)) }) && isLenOf(cm.Y, func(v ssa.Value) bool { return sameOrigin(v, ssa.Value(a)) }) {
 							okG = true
 						}
 					}
@@ -344,7 +344,7 @@ func legacyXorRules(o *Obligation, f *ssa.Function, fset *token.FileSet) {
 			o.Fail(token.NoPos, "%s: %s is not given n as its length", pos(cl.Pos()), sc.Name())
 		}
 		for i, want := range []*ssa.Parameter{dst, a, b} {
-			if !derivesFrom(args[i], func(v ssa.Value) bool { return v == ssa.Value(want) }, false) {
+			if !derivesFrom(args[i], func(v ssa.Value) bool { return sameOrigin(v, ssa.Value(want)) }, false) {
 				o.Fail(token.NoPos, "%s: argument %d of %s is not derived from %s", pos(cl.Pos()), i, sc.Name(), want.Name())
 			}
 			// pointer arguments must be &x[0]
@@ -371,7 +371,7 @@ func xorLoops(o *Obligation, g *ssa.Function, pos func(token.Pos) string) {
 	}
 	var loops []loop
 	sym := func(v ssa.Value) (string, bool) {
-		if v == ssa.Value(n) {
+		if sameOrigin(v, ssa.Value(n)) {
 			return "n", true
 		}
 		return defaultSym(v)
@@ -412,7 +412,7 @@ func xorLoops(o *Obligation, g *ssa.Function, pos func(token.Pos) string) {
 		var init ssa.Value
 		stepOK := false
 		for _, e := range ph.Edges {
-			if bo, ok := e.(*ssa.BinOp); ok && bo.Op == token.ADD && bo.X == ssa.Value(ph) {
+			if bo, ok := e.(*ssa.BinOp); ok && bo.Op == token.ADD && sameOrigin(bo.X, ssa.Value(ph)) {
 				if k, ok := constInt(bo.Y); ok && k == 1 {
 					stepOK = true
 					continue
@@ -427,7 +427,7 @@ func xorLoops(o *Obligation, g *ssa.Function, pos func(token.Pos) string) {
 		var bound ssa.Value
 		for _, ft := range guards(in) {
 			cm, ok := normCmp(ft.Cond, ft.Val)
-			if ok && cm.Op == token.LSS && cm.X == ssa.Value(ph) {
+			if ok && cm.Op == token.LSS && sameOrigin(cm.X, ssa.Value(ph)) {
 				bound = cm.Y
 			}
 		}
